@@ -67,8 +67,8 @@ def parse_head(h):
     return info, kv["priv"] == "1", int(kv["minp"])
 
 
-def case(size, priv, seed, minp, ops, tag="t"):
-    return head(size, priv, seed, minp, tag) + " | " + " ".join(ops)
+def case(size, priv, seed, minp, ops, tag="t", notick=False):
+    return head(size, priv, seed, minp, tag) + (" notick=1" if notick else "") + " | " + " ".join(ops)
 
 
 ID_VALUES = ["0", "1", "2", "3", "7", "255", "256", "257", "511", "-1", "2147483648", "9223372036854775807"]
@@ -99,6 +99,10 @@ def rand_piece(r, size):
         return str(r.randrange(0, n))
     if c < 0.8:
         return str(r.choice([n - 1, n, n + 1]))
+    if c < 0.9:
+        # indices congruent to a valid piece modulo 2^32 (a 32-bit piece variable would serve them)
+        k = r.randrange(0, n)
+        return str(r.choice([(1 << 32) + k, (1 << 33) + k, -(1 << 32) + k, -((1 << 32) - k), (1 << 32)]))
     return r.choice(["-1", "4294967296", "9223372036854775807", "-9223372036854775808", "10000000000000000000"[:19], "999999"])
 
 
@@ -430,12 +434,48 @@ HAND = [
     # the client applies its PEX setting: a private torrent must stay silent (DownloadInfo::set_pex_enabled's guard)
     (300, True, 40, "P1 c0 b0:Hm3,x1,p7000 t c1 b1:Hx2,p5 t P0 P1 c2 b2:Hx3,p9 t t"),
     (300, False, 40, "P0 c0 b0:Hm3,x1,p7000 t P1 c1 b1:Hx2,p5 t t P0 t c2 b2:Hx3,p9 t P1 t t"),
+    # piece indices congruent to a valid piece modulo 2^32 must be rejected (round-3 seed 1)
+    (40000, True, 40, "c0 b0:Hm3 b0:M2.0.4294967296 b0:M2.0.4294967297 b0:M2.0.8589934594 b0:M2.0.-4294967295 b0:M2.0.-4294967294 b0:M2.0.1"),
+    (16384, True, 40, "c0 b0:Hm3 b0:M2.0.4294967296 b0:M2.0.-4294967296 b0:M2.0.0"),
     # a ut_pex message still in flight (peer not accepting bytes) when PEX is switched off for that connection
     # at the next tick: do_peer_exchange must copy the shared buffer before clearing it
     (300, False, 4, "c0 b0:Hx1,p1 c1 b1:Hx1,p2 c2 b2:Hx1,p3 t w0:0 b2:Hp9 t c3 b3:Hx1,p4 t w0:inf t"),
     (300, False, 4, "e0 b0:Hx1,p1 c1 b1:Hx1,p2 c2 b2:Hx1,p3 t w0:0 b2:Hp9 t c3 b3:Hx1,p4 t w0:drip3 t"),
     (300, False, 40, "e0 b0:Hm3,x1,p7000 t w0:0 e1 b1:Hx2,p5 b0:M2.0.0/M2.0.0 t w0:drip7 t"),
 ]
+
+
+# start-up window (no tick yet): a private torrent must not advertise ut_pex, must not count the connection
+# in size_pex, and must not take peers from incoming ut_pex messages (round-3 seed 3)
+STARTUP_HAND = [
+    (300, True, 40, "c0 b0:Hm3,x1,p7000 b0:X7f0000c81e61 c1 b1:Hx2,p5 b1:X7f0000c91e617f0000ca1e62 t b0:X7f0000cb1e63 t"),
+    (300, True, 40, "e0 b0:Hx1,p7000/X7f0000c81e61 t t"),
+    (300, True, 40, "P1 c0 b0:Hx1,p7 b0:X7f0000c81e61 t"),
+    (300, False, 40, "c0 b0:Hm3,x1,p7000 c1 b1:Hx2,p5 t t"),
+    (300, False, 40, "P0 c0 b0:Hm3,x1,p7000 t P1 c1 b1:Hx2,p5 t t"),
+]
+
+
+def gen_startup(r, size, priv):
+    g = Gen(r, size)
+    if r.random() < 0.3:
+        g.client_pex(r.random() < 0.7)
+    for _ in range(r.randrange(2, 9)):
+        c = r.random()
+        if c < 0.35:
+            if g.connect():
+                i = int(g.ops[-1][1])
+                g.batch(i, ["H" + ",".join(["x%d" % r.randrange(1, 6), "p%d" % r.randrange(1, 65536)] + (["m3"] if r.random() < 0.5 else []))])
+        elif c < 0.6 and g.used and priv:
+            i = r.choice(sorted(g.used))
+            ents = "".join("7f0000%02x%04x" % (200 + r.randrange(0, 50), r.randrange(1, 65536)) for _ in range(r.randrange(1, 4)))
+            g.batch(i, ["X" + ents])
+        elif c < 0.8:
+            g.tick()
+        elif g.used:
+            g.batch(r.choice(sorted(g.used)), ["M2.0." + rand_piece(r, size)])
+    g.tick()
+    return g.ops
 
 
 def exhaustive_small(seed):
@@ -682,6 +722,13 @@ def gen(seed, tier):
                 continue
             cases.append(case(size, priv, r.randrange(1, 1000), minp, ops))
             stats[name] += 1
+    for size, priv, minp, ops in STARTUP_HAND:
+        cases.append(case(size, priv, 7, minp, ops.split(), tag="s", notick=True))
+    for _ in range(40 if not big else 200):
+        priv = r.random() < 0.7
+        size = r.randrange(MIN_SIZE, 400)
+        cases.append(case(size, priv, r.randrange(1, 1000), 40, gen_startup(r, size, priv), notick=True))
+    stats["startup_window"] = sum(1 for c in cases if " notick=1" in c)
     for u in UNIT_HAND:
         cases.append(u)
     for _ in range(25 if not big else 120):
@@ -739,6 +786,7 @@ def oracle(case, impl):
     segs = impl.split(" ; ")
     prev_conn = {}
     hist_ids, hist_conn, valid_ports = {}, {}, {}
+    requested = {}   # peer -> exact piece indices it asked for
     for seg in segs:
         opname = seg.split(" => ")[0].strip()
         evs, _, snap = seg.partition("#")
@@ -751,6 +799,10 @@ def oracle(case, impl):
                 hist_ids[j] = {"m": [a0["m"]], "x": [a0["x"]]}
                 hist_conn[j] = [prev_conn]
         cand = hist_ids
+        if opname.startswith("b"):
+            for item in opname[3:].split("/"):
+                if item.startswith("M2.0."):
+                    requested.setdefault(int(opname[1]), set()).add(int(item[5:]))
         if opname.startswith("b"):
             i = int(opname[1])
             went_deaf = re.search(r"S%d\[[^\]]* rd=0 " % i, snap) is not None
@@ -766,6 +818,12 @@ def oracle(case, impl):
                             valid_ports.setdefault(i, {0}).add(int(f[1:]))
         if opname[:1] in ("c", "e"):
             adv[int(opname[1])] = {"m": None, "x": None}
+        mav = re.search(r" av=(\d+)\]", snap)
+        if priv and mav and mav.group(1) != "0":
+            viol.append(("pex-private-takes-peers", "after '%s' the available list of a private torrent holds %s peer(s): addresses from an incoming ut_pex message were added" % (opname, mav.group(1))))
+        msp = re.search(r"D\[sp=(\d+) ", snap)
+        if priv and msp and msp.group(1) != "0":
+            viol.append(("pex-private", "after '%s' a private torrent counts %s connection(s) as PEX-enabled (size_pex)" % (opname, msp.group(1))))
         if "UAF" in snap:
             viol.append(("pex-buffer-use-after-free", "after '%s' a connection's extension message in flight points into freed memory (shared PEX buffer cleared by do_peer_exchange): %s" % (
                 opname, snap[snap.index("UAF"):snap.index("UAF") + 80])))
@@ -816,6 +874,11 @@ def oracle(case, impl):
                     viol.append(("ext-id-mismatch", "after '%s' ut_metadata id %d written, peer advertised %d" % (opname, eid, want)))
                 p = int(f["piece"])
                 plen, _, pmd5 = f["pay"].partition(":")
+                if f["msg_type"] == "1" and p not in requested.get(i, set()):
+                    asked = sorted(x for x in requested.get(i, set()) if x % (1 << 32) == p)
+                    viol.append(("metadata-served-unservable-index",
+                                 "after '%s' peer %d received DATA for piece %d which it never asked for; it asked for index %s, which is not a piece of this "
+                                 "%d-piece metadata and must be rejected" % (opname, i, p, asked[:3] if asked else "(none congruent)", npieces)))
                 if f["msg_type"] == "1":
                     exp = info[PS * p:PS * (p + 1)] if p < npieces else None
                     ok = exp is not None and int(f.get("total_size", "-1")) == size and int(plen) == len(exp) and \
